@@ -149,6 +149,26 @@ struct Fin {
 				check_projection(pv, m, [&](long const* o) { return src(o); }, "static_array_cast<T const>");
 				mutate_all();
 				check_projection(pv, m, [&](long const* o) { return src(o); }, "static_array_cast<T const> after mutating the source");
+				// const_array_cast<T>() of the read-only view: same extents, the very same elements, writable again (only constness changes)
+				if constexpr(D >= 2) {  // (the 1-D specialisation has no const_array_cast())
+					ctx.desc << " ; const_array_cast<T>()"; ctx.label("const_array_cast");
+					auto&& mv = pv.template const_array_cast<T>();
+					check_projection(mv, m, [&](long const* o) { return src(o); }, "const_array_cast<T>");
+					if(!m.empty()) {
+						long i0[D]; long ord[D] = {};
+						do {
+							for(int k = 0; k < D; ++k) { i0[k] = m.d[static_cast<std::size_t>(k)].first + ord[k]; }
+							VP_CHECK(static_cast<void const*>(address_at(mv, i0)) == static_cast<void const*>(&src(ord)), "proj/identity", "const_array_cast<T>() element is not the source element");
+						} while(vp::next_ord(m, ord));
+						static_assert(std::is_assignable_v<decltype(*address_at(mv, static_cast<long const*>(nullptr))), T>, "const_array_cast<T>() yields assignable elements");
+						std::vector<T> before(root, root + N);
+						long l0[D]; for(int k = 0; k < D; ++k) { l0[k] = m.d[static_cast<std::size_t>(k)].first + m.d[static_cast<std::size_t>(k)].size - 1; } long ol[D]; for(int k = 0; k < D; ++k) { ol[k] = m.d[static_cast<std::size_t>(k)].size - 1; }
+						*address_at(mv, l0) = mutate(src(ol));  // write through the last element
+						for(long i = 0; i < N; ++i) { if(i != m.pos(ol)) { VP_CHECK(std::memcmp(&root[i], &before[static_cast<std::size_t>(i)], sizeof(T)) == 0, "proj/write_through", "writing through const_array_cast<T>() changed root element " << i << ", not only the designated one"); } }
+						T const expected_new = mutate(before[static_cast<std::size_t>(m.pos(ol))]);
+						VP_CHECK(std::memcmp(&root[m.pos(ol)], &expected_new, sizeof(T)) == 0, "proj/write_through", "writing through const_array_cast<T>() did not reach the source element");
+					}
+				}
 				return;
 			}
 			case 2: {  // array constructed from the view: extents and elements
